@@ -33,10 +33,13 @@ def _run_one(prop, spec, tmpdir, timeout):
     out_path = Path(tmpdir) / f"out_{sid}.json"
     spec_path.write_text(json.dumps(spec))
     t0 = time.time()
+    env = bootstrap.worker_env()
+    if spec.get("optimize"):
+        env["PYTHONOPTIMIZE"] = "1"  # this shard's interpreter runs with -O: the library must not rely on assert statements
     try:
         cp = subprocess.run(
             [bootstrap.PYTHON, "-X", "faulthandler", "-m", "pvmon.worker", prop, str(spec_path), str(out_path)],
-            env=bootstrap.worker_env(), cwd=str(VERIF), timeout=timeout,
+            env=env, cwd=str(VERIF), timeout=timeout,
             stdout=subprocess.PIPE, stderr=subprocess.PIPE, text=True,
         )
     except subprocess.TimeoutExpired:
@@ -57,6 +60,7 @@ def run_check(prop, tier, seed, workers=None, only_shard=None):
         s.setdefault("shard", i)
         s["seed"] = seed
         s["tier"] = tier
+        s.setdefault("optimize", s["shard"] % 4 == 3)  # a quarter of the shards runs under python -O
     if only_shard is not None:
         specs = [s for s in specs if s["shard"] == only_shard]
     workers = workers or int(os.environ.get("PVMON_WORKERS", "16"))
